@@ -101,10 +101,13 @@ static void poison_free_renew(struct elem *x, int c)
 }
 
 static long cmp_budget;
+static int sortdir[2] = { 1, -1 };
 static int cmp_key(const void *a, const void *b, void *p)
 {
     const struct elem *x = a, *y = b;
-    VRT_CHECK(p == (void *)&nkeys, "dlist.sort.cmp-priv", "comparison called with wrong priv %p", p);
+    /* the priv pointer carries the sort direction: the same function sorts ascending or descending */
+    VRT_CHECK(p == (void *)&sortdir[0] || p == (void *)&sortdir[1], "dlist.sort.cmp-priv", "comparison called with wrong priv %p", p);
+    if (*(const int *)p < 0) { const struct elem *t = x; x = y; y = t; }
     VRT_CHECK(x->magic == MAGIC && y->magic == MAGIC, "dlist.sort.cmp-non-element",
               "comparison called with a non-element");
     /* a merge sort needs < n*ceil(log2 n) comparisons; far beyond that the sort is not going to return:
@@ -421,7 +424,8 @@ static int st_apply(uint32_t op, int audit)
         VRT_OP2("dlist.sort", "l%ld (len %ld)", l1, Mn[l1]);
         if (Mn[l1] >= 2) vrt_sig(1, keyseq_sig(l1));
         cmp_budget = 64L * Mn[l1] + 64;
-        cstl_dlist_sort(&L[l1], cmp_key, &nkeys);
+        cstl_dlist_sort(&L[l1], cmp_key, &sortdir[key & 1]);
+        if (key & 1) VRT_COUNT("op.sort.descending");
         /* observe the new order through a FWD foreach that records instead of comparing */
         {
             struct elem **got = GOT;
@@ -443,7 +447,8 @@ static int st_apply(uint32_t op, int audit)
                 }
                 VRT_CHECK(got[i]->magic == MAGIC && got[i]->where[c1] == l1, "dlist.sort.not-a-permutation",
                           "element at %d after sort is not a member / appears twice", i);
-                VRT_CHECK(i == 0 || got[i - 1]->key <= got[i]->key, "dlist.sort.unordered", "keys out of order at %d", i);
+                VRT_CHECK(i == 0 || ((key & 1) ? got[i - 1]->key >= got[i]->key : got[i - 1]->key <= got[i]->key), "dlist.sort.unordered",
+                          "keys out of order at %d (%s sort)", i, (key & 1) ? "descending" : "ascending");
                 if (i > 0 && got[i - 1]->key == got[i]->key) {
                     /* stability is not required; just count what happens */
                     int a = -1, b = -1;
@@ -726,6 +731,7 @@ static int build_alphabet(const struct cscope *s, uint32_t *al)
         al[n++] = OP(K_POP_BACK, l, 0, 0, 0, 0, 0);
         al[n++] = OP(K_REVERSE, l, 0, 0, 0, 0, 0);
         al[n++] = OP(K_SORT, l, 0, 0, 0, 0, 0);
+        al[n++] = OP(K_SORT, l, 0, 1, 0, 0, 0);
         al[n++] = OP(K_CLEAR, l, 0, 0, 0, 0, 0);
         for (d = FWD; d <= REV; d++) {
             for (k = 0; k <= s->nk; k++) al[n++] = OP(K_FIND, l, 0, k, d, 0, 0);
@@ -796,7 +802,15 @@ static void run_random(uint64_t idx)
         else if (r < 580) op = OP(K_POP_FRONT, l, 0, 0, 0, 0, 0);
         else if (r < 660) op = OP(K_POP_BACK, l, 0, 0, 0, 0, 0);
         else if (r < 710) op = OP(K_REVERSE, l, 0, 0, 0, 0, 0);
-        else if (r < 760) op = OP(K_SORT, l, 0, 0, 0, 0, 0);
+        else if (r < 760) {
+            /* the elements belong to the caller: a key may change while the element is linked; the next sort must see it */
+            if (len > 0 && vrt_chance(&g, 1, 3)) {
+                struct elem *x = M[l][vrt_below(&g, len)];
+                x->key = (x->key + 1 + (nk > 1 ? (int)vrt_below(&g, nk - 1) : 0)) % nk;
+                VRT_COUNT("op.key-changed-while-linked");
+            }
+            op = OP(K_SORT, l, 0, vrt_below(&g, 2), 0, 0, 0);
+        }
         else if (r < 800) op = OP(K_CONCAT, l, l2, 0, 0, 0, 0);
         else if (r < 850) op = OP(K_SWAP, l, l2, 0, 0, 0, 0);
         else if (r < 910) op = OP(K_FIND, l, 0, vrt_below(&g, nk + 1), d, 0, 0);
